@@ -92,7 +92,12 @@ def check_all():
             for lim in [None] + list(range(1, N + 2)):
                 o = allf[oi] if oi is not None else None
                 i = allf[ii] if ii is not None else None
-                st = extract(StackSlice(outer=o, inner=i, limit=lim), with_contexts=False)
+                # both spellings of the constructor: keywords, and positionally in the documented order (outer, inner, limit)
+                if stats["slices"] % 2:
+                    spec = StackSlice(o, i, lim) if lim is not None else (StackSlice(o, i) if i is not None else StackSlice(o))
+                else:
+                    spec = StackSlice(outer=o, inner=i, limit=lim)
+                st = extract(spec, with_contexts=False)
                 stats["slices"] += 1
                 if oi is not None and ii is not None and lim is not None:
                     stats["all_three_set"] += 1
